@@ -250,7 +250,7 @@ struct H {
     static const char *name() { return "C18 group by"; }
     static rc::Gen<Case> gen() {
         using namespace rc;
-        return gen::map(gen::tuple(gen::resize(200, gen::container<std::vector<uint8_t>>(gen::arbitrary<uint8_t>())), pbt::pick<int>({0, 0, 1}), pbt::pick<int>({1, 1, 2, 4})),
+        return gen::map(gen::tuple(gen::resize(200, gen::container<std::vector<uint8_t>>(gen::arbitrary<uint8_t>())), pbt::pick<int>({0, 0, 1}), pbt::pick<int>({1, 1, 2, 4, 3})),
                         [](std::tuple<std::vector<uint8_t>, int, int> t) {
                             Case c;
                             c.bytes = std::get<0>(t);
@@ -301,6 +301,7 @@ struct H {
         ctx.label("units:" + std::to_string(c.width) + "-byte");
         switch (c.width) {
             case 2: run_width<char16_t>(c, ctx); break;
+            case 3: run_width<wchar_t>(c, ctx); break;
             case 4: run_width<char32_t>(c, ctx); break;
             default: run_width<char>(c, ctx); break;
         }
